@@ -237,9 +237,9 @@ func boxCases(full bool, r *lib.Rng, emit func(*Case)) {
 	}
 	// pairs of ignore paths: sampled
 	sets3b := setsUpTo(paths2, 2)
-	n := 60000
+	n := 100000
 	if full {
-		n = 1500000
+		n = 1000000
 	}
 	for i := 0; i < n; i++ {
 		emit(&Case{A: lib.Pick(r, u3), B: lib.Pick(r, u3), Ign: sets3b[r.Intn(len(sets3b))], Stream: "box.arrays-of-objects-sampled"})
@@ -249,9 +249,9 @@ func boxCases(full bool, r *lib.Rng, emit func(*Case)) {
 // randomCases: one random tree, perturbed at k places; both directions; ignore sets derived from it.
 func randomCases(full bool, r *lib.Rng, emit func(*Case)) {
 	g := &treeGen{r: r}
-	n := 40000
+	n := 100000
 	if full {
-		n = 600000
+		n = 1000000
 	}
 	for i := 0; i < n; i++ {
 		a := g.tree(2 + r.Intn(3))
@@ -276,9 +276,9 @@ func randomCases(full bool, r *lib.Rng, emit func(*Case)) {
 // then possibly perturbed.
 func matchCases(full bool, r *lib.Rng, emit func(*Case)) {
 	g := &treeGen{r: r}
-	n := 20000
+	n := 50000
 	if full {
-		n = 300000
+		n = 500000
 	}
 	var cut func(t *T) *T
 	cut = func(t *T) *T {
